@@ -6,9 +6,10 @@
    extend it), carries its text and no position, the text holds no OSCAT description markers and every END_IF is followed
    by a ';'.  The check is evaluated on every rendering the correspondence run generates (driver op `textrt`); that it holds
    for EVERY list under the guard is not proved here. *)
-From Coq Require Import List NArith Bool Lia.
+From Coq Require Import List NArith Bool Lia String Ascii.
 From Verif Require Import Base.Text Gen.GenTokens Model.Lexer Model.StParser Model.StInstance Model.StRender
   Proofs.StRenderProofs Proofs.LexSpell.
+From Verif Require Proofs.StExprProofs Proofs.StStmtProofs Proofs.StInstanceProofs.
 From Verif Require Proofs.GenObligations.
 Import ListNotations.
 
@@ -60,24 +61,27 @@ Qed.
 
 Definition render_text (name : text) (l : list stmt) : text := spell_all (render_fb name l).
 
-(* the text is read as the rendered tokens, with the ';' the tokenizer adds after END_IF *)
-Theorem text_is_read_as_rendered name l : text_ok (render_fb name l) = true ->
-  parse_fb_text (render_text name l) = parse_fb_tokens (insert_terminators (render_fb name l)).
+(* the text of ANY token list that passes the check is read as those tokens, with the ';' the tokenizer adds after END_IF *)
+Theorem text_is_read_as_tokens u : text_ok u = true ->
+  parse_fb_text (spell_all u) = parse_fb_tokens (insert_terminators u).
 Proof.
   intros Hok. unfold text_ok in Hok.
   apply andb_true_iff in Hok. destruct Hok as [Hok Hpre].
   apply andb_true_iff in Hok. destruct Hok as [Hok Hnorm]. apply andb_true_iff in Hok. destruct Hok as [Hsep Htxt].
   apply text_eqb_eq in Hpre.
-  set (u := render_fb name l) in *.
   assert (Hu : Forall (fun t => t_text t <> [] /\ norm_tok t = t) u).
   { apply Forall_forall. intros t Ht. rewrite forallb_forall in Htxt, Hnorm. split.
     - specialize (Htxt t Ht). destruct (t_text t); [discriminate Htxt | discriminate].
     - apply tok_eqb_eq. exact (Hnorm t Ht). }
-  unfold parse_fb_text, tokenize_program, render_text. fold u. rewrite Hpre.
+  unfold parse_fb_text, tokenize_program. rewrite Hpre.
   pose proof (spelled_tokens_are_read_back u Hsep) as Hlex.
   destruct (items_are_tokens u (lex_items (spell_all u)) Hu Hlex) as [He Hm].
   rewrite He. unfold insert_terminators. rewrite norm_insert, Hm. reflexivity.
 Qed.
+
+Theorem text_is_read_as_rendered name l : text_ok (render_fb name l) = true ->
+  parse_fb_text (render_text name l) = parse_fb_tokens (insert_terminators (render_fb name l)).
+Proof. apply text_is_read_as_tokens. Qed.
 
 (* the tokenizer adds nothing where there is no END_IF *)
 Lemma no_end_if ts : forallb (fun t => negb (kind_eqb (t_kind t) KEndIf)) ts = true -> insert_terminators ts = ts.
@@ -98,3 +102,36 @@ Qed.
 Example text_round_trip_example :
   text_ok (render_fb [102%N; 98%N] ex_stmts) = true /\ parse_fb_text (render_text [102%N; 98%N] ex_stmts) = OParsed ex_stmts.
 Proof. split; vm_compute; reflexivity. Qed.
+
+
+(* C01 / C08 at the level of texts: the TEXT of any well-formed spelling of a function block -- any trivia (blanks, tabs, line
+   breaks, block comments), any letter case, redundant parentheses, empty statements -- that passes the decidable check and
+   holds no END_IF is parsed to the statements it denotes *)
+Theorem spelled_text_is_faithful : forall w00 fb w0 nm w1 (l : StStmtProofs.sl token) w2 en w3,
+  StExprProofs.all_triv token tok_class w00 -> t_kind fb = KFunctionBlock ->
+  StExprProofs.all_triv token tok_class w0 -> t_kind nm = KIdentifier ->
+  StExprProofs.all_triv token tok_class w1 ->
+  StStmtProofs.wf_l token tok_class t_text tok_num op_level true l ->
+  StExprProofs.all_triv token tok_class w2 -> t_kind en = KEndFunctionBlock ->
+  StExprProofs.all_triv token tok_class w3 ->
+  (StStmtProofs.absorbs token l = true -> w2 = []) ->
+  let u := w00 ++ fb :: w0 ++ nm :: w1 ++ StStmtProofs.flat_l token l ++ w2 ++ en :: w3 in
+  text_ok u = true -> forallb (fun t => negb (kind_eqb (t_kind t) KEndIf)) u = true ->
+  parse_fb_text (spell_all u) = OParsed (StStmtProofs.erase_l token t_text tok_num l).
+Proof.
+  intros w00 fb w0 nm w1 l w2 en w3 H00 Hfb H0 Hnm H1 Hl H2 Hen H3 Ha u Hok Hif.
+  rewrite (text_is_read_as_tokens u Hok), (no_end_if _ Hif).
+  exact (StInstanceProofs.parse_fb_spelled w00 fb w0 nm w1 l w2 en w3 H00 Hfb H0 Hnm H1 Hl H2 Hen H3 Ha).
+Qed.
+
+(* non-vacuity of the check beyond the renderer's own layout: a text in lower case with a block comment, CR LF, tabs, glued
+   tokens and redundant parentheses -- its tokens pass the check and spell the text *)
+Definition odd_text : text :=
+  map (fun a => N_of_ascii a) (list_ascii_of_string
+    ("function_block  f (* a comment ( * inside *)" ++ String (ascii_of_nat 13) (String (ascii_of_nat 10)
+     ("	x := ( y + 1 ) ;" ++ String (ascii_of_nat 9) ("z := x.f[ 2 ] ;" ++ String (ascii_of_nat 10) "END_function_block")))))%string.
+Example odd_text_passes :
+  let u := map norm_tok (tokens_of (lex_items odd_text)) in
+  text_ok u = true /\ spell_all u = odd_text /\
+  match parse_fb_text odd_text with OParsed l => List.length l = 2%nat | _ => False end.
+Proof. vm_compute. repeat split; reflexivity. Qed.
